@@ -28,7 +28,7 @@ class C13(Prop):
     assumptions = ["'still ahead' means strictly later at minute resolution", "text is classified by tokens, not compared to a literal"]
     anchors = ["aioswitcher.schedule.tools:pretty_next_run", "aioswitcher.schedule.parser:SwitcherSchedule.__post_init__"]
     min_evaluations = {"quick": 150_000, "thorough": 1_500_000}
-    budget_s = {"quick": 90, "thorough": 900}
+    budget_s = {"quick": 300, "thorough": 900}
 
     async def setup(self, ctx):
         from aioswitcher.schedule import Days, parser, tools
